@@ -469,6 +469,26 @@ def harness(c, fdesc, calls):
         c.stats.violated += 1
         c.violations.append({"label": "in-language formula raises", "info": {"formula": render(text, names), "template": text, "exc": type(e).__name__, "site": core.repo_site(e), "msg": str(e)[:200]}, "model": {}})
         return
+    # printing a model must not change it (repr is what a user sees in a session)
+    try:
+        str(model)
+        repr(model)
+    except symx.PathEnd:
+        raise
+    except Exception:  # noqa -- the string form itself is not part of C02
+        pass
+    # term identity: equal terms must hash equal (sets / dict keys of terms are used by callers)
+    from formulae.terms.terms import Term as _Term
+
+    for t in model.common_terms:
+        if isinstance(t, _Term) and len(t.components) == 2:
+            twin = _Term(*reversed(t.components))
+            if twin == t and hash(twin) != hash(t):
+                names = realise_names(b)
+                c.stats.obligations += 1
+                c.stats.violated += 1
+                c.violations.append({"label": "expansion differs: equal terms hash differently", "info": {"formula": render(text, names), "template": text, "term": t.name}, "model": {}})
+                return
     has_int, terms, groups = ref_chain(ref_items, True)
     want_common = ([INT] if has_int else []) + terms
     resp, common, rgroups = real_terms(model)
@@ -537,6 +557,17 @@ def replay(info):
     from formulae import model_description
 
     f = info["formula"]
+    if "term" in info:
+        from formulae import model_description as _md
+        from formulae.terms.terms import Term as _T
+
+        m = _md(f)
+        for t in m.common_terms:
+            if isinstance(t, _T) and len(t.components) == 2:
+                tw = _T(*reversed(t.components))
+                if tw == t and hash(tw) != hash(t):
+                    return True, f"{f!r}: term {t.name} equals its factor-reversed twin but hashes differently"
+        return False, "hashes consistent"
     try:
         want = reference_model(f)
     except Exception as e:  # noqa
